@@ -137,6 +137,15 @@ let handle (s : sexp) : string = match s with
   | L [A "c2p"; k; c] -> sl sq (c2p_q (bool_of k) (list_of q_of c))
   | L [A "p2c"; k; p] ->
       let p = list_of q_of p in "(" ^ sl sq (p2c_q (bool_of k) p) ^ " " ^ sb (check_p2c (bool_of k) p) ^ ")"
+  | L [A "symfull"; odd; red] -> so (sl sq) (sym_full_q (bool_of odd) (list_of q_of red))
+  | L [A "jacf"; odd; red; f; tol] ->
+      let red = list_of q_of red and f = list_of q_of f in
+      "(" ^ sb (check_jac_f (bool_of odd) red f (q_of tol)) ^ " " ^ so sz (im_target_norm (bool_of odd) red f) ^ ")"
+  | L [A "jacdf"; odd; red; k; col; tol] ->
+      sb (check_jac_df_col (bool_of odd) (list_of q_of red) (nat_of k) (list_of q_of col) (q_of tol))
+  | L [A "imtarget"; odd; red; c; tol] ->
+      let red = list_of q_of red and c = list_of q_of c in
+      "(" ^ sb (check_im_target (bool_of odd) red c (q_of tol)) ^ " " ^ so sz (im_target_norm (bool_of odd) red c) ^ ")"
   | L [A "scale"] -> sz scaleZ
   | _ -> failwith "unknown command"
 
